@@ -68,6 +68,19 @@ def gen_case(rng, tier):
     case = dict(kind=kind, shape=shape, patch=patch, stride=stride, v=rng.choice([0.0, 0.0, 0.5, -1.0, 1.25]),
                 params=fam.gen_fquad(rng, ncls, dim), xs=[fam.dyadic(rng, dim) for _ in range(n)],
                 ts=fam.gen_targets(rng, n, ncls))
+    if kind == "img" and shape[2] >= 2 and rng.random() < 0.3:
+        # degenerate-but-valid inputs: some pixels EQUAL the occlusion value in every channel (occluding them changes
+        # nothing), others deviate from it by amounts that cancel over the channels (+a, -a[, 0 ...]): still a change
+        C, v = shape[2], case["v"]
+        for x in case["xs"]:
+            for p in range(shape[0] * shape[1]):
+                r = rng.random()
+                if r < 0.3:
+                    x[p * C:(p + 1) * C] = [v] * C
+                elif r < 0.8:
+                    a = rng.choice([0.25, 0.5, 1.0, 1.5])
+                    x[p * C:(p + 1) * C] = [v + a, v - a] + [v] * (C - 2)
+        case["balanced"] = True
     nm = n_masks(case)
     case["bs"] = rng.choice([1, 2, 3, max(1, nm - 1), nm, nm + 1, n, None, None, rng.randint(1, max(2, nm + 2))])
     return case
